@@ -49,9 +49,15 @@ BalOf(bal, a) == IF a \in DOMAIN bal THEN bal[a] ELSE 0
 World0(devS, devG, bal, stor) ==
   LET st == [c \in CA |-> IF c \in DOMAIN stor THEN stor[c] ELSE ZeroStor] IN
   [stor |-> st, base |-> st, bal |-> [a \in Addrs |-> BalOf(bal, a)], dead |-> [c \in CA |-> FALSE], code |-> [c \in CA |-> c \in Contracts],
+   lost |-> [c \in CA |-> FALSE],                         \* (devL only) the code of c cannot be loaded any more
+   vol |-> [c \in CA |-> c \in Created],                  \* the code c holds / will hold is in no store yet (created in this block)
    jr |-> <<>>,                                          \* journal of undo records
    nv |-> [k \in Addrs \X LogTypes |-> 0],                \* last version handed out per (account, log type); never decreases
-   devS |-> devS, devG |-> devG, crash |-> FALSE]
+   devS |-> devS, devG |-> devG, devL |-> FALSE, crash |-> FALSE]
+\* devL: undoSuicide restores the code HASH only - the code of a contract created earlier in the same block (not yet in
+\* the store) is gone: the account keeps the hash, loading the code fails, every call towards it is refused.  (vol: unless
+\* the store happens to hold the very same bytes already - as code of another contract: the trace validator is told.)
+WithDevL(w, devL) == [w EXCEPT !.devL = devL]
 
 Entry(a, t, v, ob, sl, os, oc) == [a |-> a, t |-> t, v |-> v, ob |-> ob, sl |-> sl, os |-> os, oc |-> oc]
 Push(w, a, t, ob, sl, os, oc) ==
@@ -70,17 +76,18 @@ SuicideW(w, c, b) ==
   IF w.dead[c] THEN w
   ELSE LET w1 == SetBal(w, b, w.bal[b] + w.bal[c])
        IN [Push(w1, c, "sui", w1.bal[c], "", w1.stor[c], w1.code[c])
-             EXCEPT !.bal[c] = 0, !.stor[c] = ZeroStor, !.dead[c] = TRUE, !.code[c] = FALSE]
+             EXCEPT !.bal[c] = 0, !.stor[c] = ZeroStor, !.dead[c] = TRUE, !.code[c] = FALSE, !.lost[c] = FALSE]
 \* the code deposit of a creation: the returned code (hascode: it is not empty) becomes the account's code
-SetCodeW(w, c, hascode) == [Push(w, c, "code", 0, "", ZeroStor, w.code[c]) EXCEPT !.code[c] = hascode]
+SetCodeW(w, c, hascode) == [Push(w, c, "code", 0, "", ZeroStor, w.code[c]) EXCEPT !.code[c] = hascode, !.lost[c] = FALSE]
 
 UndoOne(w, e) ==
   CASE e.t = "bal"  -> [w EXCEPT !.bal[e.a] = e.ob]
     [] e.t = "stor" -> [w EXCEPT !.stor[e.a][e.sl] = e.ob]
     [] e.t = "ev"   -> w
-    [] e.t = "code" -> [w EXCEPT !.code[e.a] = e.oc]
+    [] e.t = "code" -> [w EXCEPT !.code[e.a] = e.oc, !.lost[e.a] = FALSE]
     [] e.t = "sui"  -> [w EXCEPT !.bal[e.a] = e.ob, !.dead[e.a] = FALSE, !.code[e.a] = e.oc,
-                                 !.stor[e.a] = IF w.devS THEN w.base[e.a] ELSE e.os]
+                                 !.stor[e.a] = IF w.devS THEN w.base[e.a] ELSE e.os,
+                                 !.lost[e.a] = w.devL /\ e.oc /\ w.vol[e.a]]      \* (code of the parent block is in the store)
 \* undo the journal entries above the mark, newest first (FoldLeft: evaluated iteratively by TLC)
 Undo(w, mark) ==
   LET n == Len(w.jr) IN
@@ -96,7 +103,7 @@ RevertTo(w, mark) == IF w.devG /\ GapIn(w.jr, mark) THEN [w EXCEPT !.crash = TRU
 
 NEv(w, tag) == Cardinality({i \in 1..Len(w.jr) : w.jr[i].t = "ev" /\ w.jr[i].sl = tag})
 \* what the property speaks about (the platform's own failure / creation records are counted separately)
-Obs(w) == [stor |-> w.stor, bal |-> w.bal, dead |-> w.dead, code |-> w.code, nlog |-> NEv(w, "log")]
+Obs(w) == [stor |-> w.stor, bal |-> w.bal, dead |-> w.dead, code |-> w.code, lost |-> w.lost, nlog |-> NEv(w, "log")]
 
 \* ------------------------------------------------------------------ frames
 CtxOf(kind, to, callerCtx) == IF kind \in {"call", "staticcall", "create"} THEN to ELSE callerCtx
